@@ -136,7 +136,11 @@ CLAIMS = {
              "one and write nothing else, or call CPython's own PyList_Append on the unchanged list, or - for a non-list receiver - make "
              "the Python-level call L.append(x) and map a NULL result to -1; that Optimize._optimise_generic_builtin_method_call (the "
              "transform that makes `obj.meth(..)` on a builtin-typed receiver call the method's cached C function directly) hands the "
-             "receiver to the cached call only through the None check of _wrap_self_arg; (b) for a catalogue of builtin "
+             "receiver to the cached call only through the None check of _wrap_self_arg; that Visitor._dispatch_to_handler dispatches the "
+             "unbound form T.meth(o, ..) to T's specialised helper only when o's static type IS T; that _handle_simple_method_dict_pop "
+             "keeps the KeyError-raising helper for d.pop(key) (the miss-ignoring one needs an explicit default and an unused result); "
+             "that the call site of bytearray.append(v) for int / long long / unsigned int / Py_ssize_t arguments appends exactly the "
+             "byte values and raises for everything else (L3 on the object model, helpers by contract); (b) for a catalogue of builtin "
              "calls on C integers (abs, min / max with 2-4 operands of mixed C types and constants, nested min/max, bool()) the C function "
              "the working-tree compiler emits returns, for ALL argument values, the value Python's semantics give the same source text "
              "(reference evaluator dv/pyref.py over the catalogue's own ast, validated against CPython every run). Kernel: these helpers "
@@ -194,11 +198,15 @@ CLAIMS = {
              "(if/elif chains rewritten into C switches, `in`/`not in` against literal tuples and bytes literals, chained comparisons, "
              "and/or/not mixes) the C function the working-tree compiler emits returns, for ALL argument values, the value Python's "
              "semantics give the same source text (reference evaluator dv/pyref.py over the catalogue's own ast, validated against "
-             "CPython every run). Kernel: programs are the stated catalogue; inputs are universally quantified.",
+             "CPython every run). (c) Call sites and transforms: `c in b` with a C integer and a bytes object answers like CPython's "
+             "membership test on an int object holding exactly c, or - for byte values only - by the direct scan; `a == b` / `a != b` as a "
+             "condition on an extension-type operand is the truth of CPython's rich comparison also for IDENTICAL objects (no C-API identity "
+             "shortcut); ConstantFolding._handle_NotNode never negates a chained comparison link-wise. "
+             "Kernel: programs are the stated catalogue; inputs are universally quantified.",
         note="Trusted: dv C front end, dv/pyobj.py (PyLong 3.12 representation contract, exact-type predicates as views of Py_TYPE, "
-             "PyFloat_AS_DOUBLE, PyObject_RichCompare = CPython's own answer), z3; ASSUMED arithmetic lemma LEX (positional notation: "
-             "ints with equal sign and digit count compare like their most significant differing digit; fewer digits = smaller "
-             "magnitude) - stated, not proved, needs induction over the digit count. NOT covered: the int/float, str and bytes helpers "
+             "PyFloat_AS_DOUBLE, PyObject_RichCompare = CPython's own answer), z3; the positional-notation lemma LEX is a lemma unit "
+             "(bases, steps and derivation discharged; induction schema applied by hand; assumed: value = sum of weighted digits). "
+             "NOT covered: the int/float and str helpers "
              "(their answers are uninterpreted at the dispatcher's call sites: only the routing is decided), the object-returning "
              "dispatcher variants and typed variants (same template text), UnicodeEquals/UCS4, dict/set membership, operand evaluation "
              "order for operands with side effects, mixed signed/unsigned C comparisons.",
@@ -209,7 +217,10 @@ CLAIMS = {
              "character by character for every value of T, every width and both paddings (loop unrolled to the type's digit bound with an "
              "unwinding assertion, per-iteration ghost lemmas); __Pyx_uchar_<T> / __Pyx_PyUnicode_FromOrdinal_Padded == format(v, '<0?><width>c') "
              "incl. OverflowError outside range(0x110000) and the RFC 3629 bytes given to PyUnicode_DecodeUTF8; __Pyx_PyUnicode_BuildFromAscii "
-             "(loop invariants, termination). BOUNDED stand-in (labelled, not counted as proved): CIntLike._parse_format, which decides which "
+             "(loop invariants, termination). Python side and call sites: ConstantFolding.visit_FormattedValueNode replaces an f-string field "
+             "by its value only for a unicode literal (not a bytes literal); the emitted call for an f-string field on an EXTERNAL typedef "
+             "passes the full value to a helper of that type (L3 call-site unit, helpers by contract). "
+             "BOUNDED stand-in (labelled, not counted as proved): CIntLike._parse_format, which decides which "
              "f-string specs reach these helpers and with which (type, width, padding), exhaustively over every spec of length <= 4 over a "
              "24-character alphabet: an accepted spec must mean under CPython's format() what the helper computes. "
              "Kernel: integer and character formatting helpers only.",
